@@ -20,7 +20,7 @@ import ast
 
 import sympy as sp
 
-from ..absint import LambdaRef, FuncRef, Obj, Opaque, Raised
+from ..absint import opt_args, LambdaRef, FuncRef, Obj, Opaque, Raised
 from ..alg import decide_zero
 from ..core import AnalysisError, Ctx, Finding
 from ..domain import make_interp
@@ -330,7 +330,7 @@ def r_solver(ctx: Ctx, model):
         def minimize_scalar(I, a, k, n, calls=calls):
             fun = a[0] if a else k.get("fun")
             l = S("l")
-            val = I.call_value(fun, [l], {}, n)
+            val = I.call_value(fun, [l] + opt_args(k), {}, n)
             calls.append({"objective": val, "bounds": k.get("bounds"), "method": k.get("method")})
             return Obj(kind="OptRes", attrs={"x": S(f"x{len(calls) - 1}"), "success": True})
         I.ext["scipy.optimize.minimize_scalar"] = minimize_scalar
